@@ -63,6 +63,9 @@ CHECKS = {
  "C05": dict(level="exploration", design="3/C05", technique="recorded client-boundary histories with unique ids checked offline (exactly-once, FIFO, conservation of posts, timestamp bounds), porcupine linearizability of Post/Poll/HasPending against a capacity-agnostic FIFO model, under the Go race detector with schedule-point perturbation",
     text="Feeder, 1-4 posters, resize storm and a poller in four modes (eager, slow, absent until both queues are full and longer than the escape timeout, bursty) on a real screen; every delivered event is matched against the id-carrying input stream and the posters' return values; When() bounds; HasPending-then-Poll; ChannelEvents order and closing.",
     note="Resize events excluded (dropped on a full queue by design); a history in which the feeder itself paused > 20 ms inside a sequence is inconclusive for decoding; histories sampled."),
+ "C10": dict(level="exploration", design="3/C10", technique="Go race detector (-race, halt_on_error=0, log files) over all pairs of Screen methods run concurrently with the library's own goroutines, in worker processes; report parsing and de-duplication by outermost tcell entry points; write-block contiguity and well-formedness on the reference terminal",
+    text="Every unordered pair (incl. self-pairs) of 37 Screen methods on a terminfo screen and of 36 on a SimulationScreen, two goroutines in tight loops (quick 150, thorough 4000 iterations) with the input feeder, resize notifier and event drain running, plus seeded sets of 3-5 methods; any DATA RACE report with a tcell frame, any panic or runtime fatal error, any write block ending inside a sequence or malformed output is a violation.",
+    note="The detector sees only executed paths within its history window; lifecycle calls (Suspend/Resume, Fini) are not paired with each other; PollEvent and ChannelEvents never together."),
 }
 PENDING = {}
 
